@@ -74,7 +74,7 @@ impl<'a> From<&'a ChildParentData> for ChildRenderContext<'a> {
 }
 
 struct FieldContainer<'a> {
-    gr_idx: usize,
+    gr_idx: Vec<usize>,
     path: String,
     field_data: FieldData<'a>
 }
@@ -267,15 +267,21 @@ fn struct_init_block<'a>(input: &'a Struct, ctx: &ImplContext) -> TokenStream {
 
     let mut group_paths = HashMap::<String, usize>::new();
     group_paths.insert("".into(), 0);
+    let mut subtree_paths = HashMap::<String, usize>::new();
+    let mut count: usize = 0;
 
     let mut make_tuple = |path: String, field_data: FieldData<'a>| {
-        if group_paths.contains_key(&path) {
-            let gr_idx = *group_paths.get(&path).unwrap();
-            (FieldContainer { gr_idx, path, field_data }, false)
-        } else {
-            group_paths.insert(path.clone(), group_paths.len());
-            (FieldContainer { gr_idx: group_paths.len() - 1, path, field_data}, true)
+        count += 1;
+        let is_new = !group_paths.contains_key(&path);
+        // Sort key: for every prefix of the path, the position at which its subtree was first seen,
+        // then the position at which this exact path was first seen. Members of one subtree stay
+        // adjacent after sorting, so each intermediate struct is rendered exactly once.
+        let mut gr_idx = vec![];
+        for (dot, _) in path.match_indices('.').chain(std::iter::once((path.len(), ""))) {
+            gr_idx.push(*subtree_paths.entry(path[..dot].to_string()).or_insert(count));
         }
+        gr_idx.push(*group_paths.entry(path.clone()).or_insert(count));
+        (FieldContainer { gr_idx, path, field_data }, is_new)
     };
 
     let mut fields: Vec<FieldContainer> = vec![];
